@@ -2,6 +2,7 @@
 package c03
 
 import (
+	"fmt"
 	"testing"
 
 	"pgregory.net/rapid"
@@ -60,6 +61,26 @@ func TestC03(t *testing.T) {
 		{"local", imps.Profile{MaxPaths: 6, LocalCtor: true, Dots: 3, Std: true, Anon: true}, 1},
 		{"arbitrary", imps.Profile{MaxPaths: 8, ArbPaths: true, ReservedMix: true, Compete: true}, 1},
 		{"many", imps.Profile{MaxPaths: 90, ArbPaths: true, Compete: true, Std: true, Anon: true, Dots: 2}, 0},
+	}
+	// N packages that all declare one name (generated clients of one API in many versions), N around the
+	// places where a counter gains a digit or a bounded search might stop
+	ckN := hx.Check[imps.Scenario]{Name: "same_name_crowd", Fn: check}
+	if !hx.Replay(r, ckN) && r.Shard == 0 {
+		for _, n := range []int{2, 9, 10, 11, 12, 16, 17, 33, 64, 65, 99, 100, 101, 102, 103, 128, 150, 256, 257, 300} {
+			sc := imps.Scenario{File: recipe.File{Ctor: "NewFile", Args: []recipe.Text{"p"}}}
+			if n%2 == 0 {
+				sc.File.Ops = append(sc.File.Ops, recipe.FileOp{Op: "PackagePrefix", Args: []recipe.Text{"pf"}})
+			}
+			var vals []*recipe.Node
+			for i := 0; i < n; i++ {
+				sc.Paths = append(sc.Paths, fmt.Sprintf("crowd.example/api/v%03d/types", i))
+				vals = append(vals, recipe.Qual(sc.Paths[i], fmt.Sprintf("S%d", i)))
+			}
+			sc.File.Body = []*recipe.Node{recipe.S().C("Var").C("Id", "_").C("Op", "=").C("Index").C("Interface").C("Values", vals)}
+			hx.One(r, ckN, sc)
+			r.NonTrivial(fmt.Sprintf("crowd of %d", n))
+		}
+		r.Class("same_name_crowds_to_300")
 	}
 	for _, p := range profiles {
 		c := ck
